@@ -101,6 +101,7 @@ def _rebuild_calls(f):
     # clear + fill of distribution_ counts as an inline rebuild
     clears = [n for n in f.calls() if n["callee"]["name"] == "clear" and "obj" in n and render(f.obj(n)) == "distribution_"]
     fills = [n for n in f.all_nodes() if n["k"] == "BinaryOperator" and n["op"] == "=" and render(kids(n)[0]).startswith("distribution_[")]
+    fills += [n for n in f.calls() if n["callee"]["name"] in ("emplace", "insert", "insert_or_assign", "try_emplace") and "obj" in n and render(f.obj(n)) == "distribution_"]
     if clears and fills:
         out.append(fills[-1])
     return out
@@ -275,6 +276,7 @@ def _d3(chk, fb):
         f = fb.q1(q)
         cfg = f.cfg
         fills = [n for n in f.all_nodes() if n["k"] in ("BinaryOperator", "CompoundAssignOperator") and n.get("op") in ("=", "+=") and render(kids(n)[0]).startswith("distribution_[")]
+        fills += [n for n in f.calls() if n["callee"]["name"] in ("emplace", "insert", "insert_or_assign", "try_emplace") and "obj" in n and render(f.obj(n)) == "distribution_"]
         clears = [n for n in f.calls() if n["callee"]["name"] == "clear" and "obj" in n and render(f.obj(n)) == "distribution_"]
         if not fills:
             chk.refuted("D3", f.key, "fills-classes", f.loc(), "rebuild no longer stores any class")
